@@ -13,6 +13,8 @@ LEVEL_TEXT = ('Static membership-fact rules at the composition level: for the fo
 
 
 def run(ctx):
+    from ..persist import rule_P8
+    rule_P8(ctx)      # a restored emulator is the emulator whose verdicts filtered the cached proposals
     from ..persist import rule_P12k
     rule_P12k(ctx)      # ordered members are never rebuilt from the (alphabetical) group names
     from ..volumes import rule_V2
